@@ -19,10 +19,10 @@ theorem neg_val_parity (r : F) (hr : r ≠ 0) : (-r).val % 2 = 1 ↔ ¬ (r.val %
   have := P_odd
   rw [h]; omega
 
-/-- `XY.SetXO` (decompression / x-only lifting): for EVERY x of magnitude ≤ 2 the result keeps x, has a fully
+/-- `XY.SetXO` (decompression / x-only lifting): for EVERY x of magnitude ≤ 8 (what Sqr/Mul accept) the result keeps x, has a fully
     normalised y that is ±c^((p+1)/4) for c = x³ + 7; if c is a square in F_p then y² = x³ + 7 (the point is on the
     curve), and if moreover y ≠ 0 the parity of y is the requested one. -/
-theorem setXO_ok (x : Fe) (odd : Bool) (hx : x.mag 2) :
+theorem setXO_ok (x : Fe) (odd : Bool) (hx : x.mag 8) :
     (XY.setXO x odd).x = x ∧ (XY.setXO x odd).inf = false ∧ (XY.setXO x odd).ok ∧ (XY.setXO x odd).y.normd ∧
     (∀ r : F, r * r = x.z ^ 3 + 7 →
       (XY.setXO x odd).y.z * (XY.setXO x odd).y.z = x.z ^ 3 + 7 ∧
